@@ -9,6 +9,8 @@
     * `caches c` = the NumberCache object number c (objects are numbered in construction order) with its managed
                    futures, and `task` = the live entry `_pending_tasks[cache]` (deadline of the timeout task in ms)
     * `shutdown`, `override`/`filters` (`_timeout_override`, `_timeout_filters`)
+    * `runReg`   = the executing timeout task is still the entry `_pending_tasks[running cache]` (false after `clear`);
+                   the `task` field of a cache only holds a timer that has NOT started its `_on_timeout`
     * `running`  = the cache whose `_on_timeout` is executing right now (on_timeout bodies are NOT part of the model:
                    between `fireBegin` and `fireEnd` ANY sequence of the synchronous events may occur, so theorems
                    quantify over every possible on_timeout body)
@@ -19,9 +21,9 @@
     R2  … and only once its deadline has been reached                                        (`dl ≤ now`)
     R3  time does not advance past the deadline of a live timer                             (`tick` refused if overdue)
     R4  synchronous code is not interleaved with timers                                     (`running` blocks tick/fire/shutdown)
-  Events outside the model: re-registering the cache object whose own on_timeout is currently executing (`add c`
-  while `running = some c` is refused here; the real code accepts/raises and leaves an identifier without a timer —
-  see design.d/C10.md).
+  Re-registering the cache whose own on_timeout is executing IS modelled: while the running timeout task is still
+  registered under the cache (`runReg`), `add` raises "Task already exists" and changes nothing; after a `clear`
+  inside on_timeout the name is free and `add` registers a new timer that survives the end of `_on_timeout`.
 -/
 import Ipv8.C10.GenRC
 
@@ -56,6 +58,7 @@ structure St where
   override : Option Nat := none
   filters : Option (List Nat) := none
   running : Option Nat := none
+  runReg : Bool := false
 
 def init : St := {}
 
@@ -170,7 +173,6 @@ def step (s : St) : Ev → St × Reply
     | some x => mkCache s p x delay cls kinds
   | .add c =>
     if s.n ≤ c then (s, .refused)
-    else if s.running = some c then (s, .refused)          -- outside the model, see header
     else
       let ch := s.caches c
       if ch.delay ≤ Gen.minDelayExclusiveMs then (s, .assertFail)
@@ -178,11 +180,11 @@ def step (s : St) : Ev → St × Reply
       else match lookup ch.ident s.ids with
         | some _ => (s, .dup)
         | none =>
-          match ch.task with
-          | some _ =>
-            -- `_identifiers[identifier] = cache` happens before `register_task` raises "Task already exists"
-            ({ s with ids := (ch.ident, c) :: s.ids }, .raised)
-          | none =>
+          if ch.task.isSome || (s.running == some c && s.runReg) then
+            -- `register_task` raises "Task already exists" (a live task is registered under this cache object, e.g.
+            -- its own running timeout); the identifier is only stored after `register_task`, so nothing changes
+            (s, .raised)
+          else
             ({ s with ids := (ch.ident, c) :: s.ids,
                       caches := upd s.caches c { ch with task := some (s.now + effDelay s ch) } }, .added c)
   | .pop p num =>
@@ -201,19 +203,22 @@ def step (s : St) : Ev → St × Reply
       | none => (s, .refused)
       | some dl =>
         if s.now < dl then (s, .refused)
-        else ({ s with ids := erase (s.caches c).ident s.ids, running := some c }, .timedOut c)
+        else ({ s with ids := erase (s.caches c).ident s.ids, running := some c, runReg := true,
+                       caches := upd s.caches c { s.caches c with task := none } }, .timedOut c)
   | .fireEnd =>
     match s.running with
     | none => (s, .refused)
     | some c =>
-      ({ s with caches := upd s.caches c { (s.caches c).completeFuts with task := none }, running := none }, .fired c)
+      -- the finished task unregisters itself only if the name still maps to it: a timer registered during
+      -- on_timeout (after `clear`) stays
+      ({ s with caches := upd s.caches c (s.caches c).completeFuts, running := none, runReg := false }, .fired c)
   | .fireAbort =>
     match s.running with
     | none => (s, .refused)
     | some c =>
-      ({ s with caches := upd s.caches c { s.caches c with task := none }, running := none }, .aborted c)
+      ({ s with running := none, runReg := false }, .aborted c)
   | .clear =>
-    ({ s with ids := [], caches := fun i => { s.caches i with task := none } }, .done)
+    ({ s with ids := [], caches := fun i => { s.caches i with task := none }, runReg := false }, .done)
   | .shutdown =>
     if s.running.isSome then (s, .refused)
     else
@@ -244,6 +249,9 @@ def final (s : St) (evs : List Ev) : St := (run s evs).1
 def trace (s : St) (evs : List Ev) : List Reply := (run s evs).2
 
 /-- cache object c is outstanding: registered with a live timer whose on_timeout has not started -/
-def outstanding (s : St) (c : Nat) : Prop := (s.caches c).task.isSome = true ∧ s.running ≠ some c
+def outstanding (s : St) (c : Nat) : Prop := (s.caches c).task.isSome = true
+
+/-- `is_pending_task_active(cache)`: a waiting timer, or the executing timeout task while it is still registered -/
+def active (s : St) (c : Nat) : Bool := (s.caches c).task.isSome || (s.running == some c && s.runReg)
 
 end Ipv8.C10
